@@ -17,15 +17,46 @@ import (
 // possibly again during recovery, and continues with a different mempool or, in four-validator mode, with different
 // proposals and polkas from the harness-played validators. Oracle: over every valid signature the key released in
 // all incarnations, at most one value per (height, round, kind) — the journal check shared with C04, read here as
-// the first sentence of C02.
+// the first sentence of C02 — and the lock rule (pnode.CheckLockRule): after a precommit for a block, no prevote for
+// anything else in a later round unless the harness-played validators (plus the node itself) had supplied a
+// two-thirds prevote quorum for something else in a round after that precommit.
 func TestRestartHistories(t *testing.T) {
 	const test = "TestRestartHistories"
 	rapid.Check(t, func(t *rapid.T) {
 		var h pnode.History
-		if rapid.Bool().Draw(t, "four") {
-			h = pnode.GenHistory4(t)
-		} else {
+		lockFamily := false
+		switch rapid.IntRange(0, 3).Draw(t, "family") {
+		case 0:
 			h = pnode.GenHistory(t)
+		case 1:
+			h = pnode.GenHistory4(t)
+		default:
+			// structured family "lock, then rounds without a quorum, then a restart": round 0 of the first height gives
+			// the node a polka (it precommits and locks) but no commit; the following rounds bring no two-thirds
+			// prevote quorum for anything; after the restart the harness-played proposers offer other blocks
+			h = pnode.GenHistory4(t)
+			lockFamily = true
+			vote := func(l string) string { return rapid.SampledFrom([]string{"nil", "nil", "none"}).Draw(t, l) }
+			lock := pnode.RoundScript{Propose: "valid", Variant: rapid.IntRange(0, 2).Draw(t, "lockVariant"),
+				Prevotes: []string{"block", "block", "block"}, Precommits: []string{"nil", "nil", vote("lockPc")}, Order: []int{1, 2, 3}}
+			noQuorum := func(l string) pnode.RoundScript {
+				sc := pnode.RoundScript{Propose: rapid.SampledFrom([]string{"none", "valid"}).Draw(t, l+".propose"), Variant: rapid.IntRange(0, 3).Draw(t, l+".variant"),
+					Order: rapid.Permutation([]int{1, 2, 3}).Draw(t, l+".order")}
+				// at most two of the three others prevote, never the same value twice: no quorum for anything but the lock
+				sc.Prevotes = rapid.Permutation([]string{"nil", "block", "none"}).Draw(t, l+".pv")
+				sc.Precommits = []string{"nil", "nil", vote(l + ".pc")}
+				return sc
+			}
+			h.Scripts = []pnode.RoundScript{lock}
+			for i := rapid.IntRange(1, 3).Draw(t, "quietRounds"); i > 0; i-- {
+				h.Scripts = append(h.Scripts, noQuorum(fmt.Sprintf("quiet%d", i)))
+			}
+			h.Scripts2 = nil
+			for i := rapid.IntRange(1, 3).Draw(t, "afterRounds"); i > 0; i-- {
+				sc := noQuorum(fmt.Sprintf("after%d", i))
+				sc.Propose = "valid"
+				h.Scripts2 = append(h.Scripts2, sc)
+			}
 		}
 		labels, err := pnode.OpLabels(h)
 		if err != nil {
@@ -41,6 +72,10 @@ func TestRestartHistories(t *testing.T) {
 			t.Fatalf("VERIF-INFRA: history without signer operations")
 		}
 		k := rapid.SampledFrom(pool).Draw(t, "crashIndex")
+		if lockFamily && len(pool) > 4 {
+			// the restart is only interesting after the lock was taken: crash in the later part of the run
+			k = pool[len(pool)/3+rapid.IntRange(0, len(pool)-len(pool)/3-1).Draw(t, "lateCrash")]
+		}
 		cut := rapid.SampledFrom([]float64{0, 1, 0.5}).Draw(t, "cutFrac")
 		var rec []int
 		for i := rapid.IntRange(0, 1).Draw(t, "recoveryCrashes"); i > 0; i-- {
@@ -65,7 +100,17 @@ func TestRestartHistories(t *testing.T) {
 				seen[key] = s.Inc
 			}
 		}
-		cls := []string{"crash-at:" + res.CrashLabel, fmt.Sprintf("four-validators:%v", h.Four)}
+		cls := []string{"crash-at:" + res.CrashLabel, fmt.Sprintf("four-validators:%v", h.Four), fmt.Sprintf("lock-family:%v", lockFamily)}
+		lockedBefore := false
+		for _, s := range res.SignLog {
+			if s.Inc == 0 && s.Kind == "precommit" && !s.BlockID.IsZero() {
+				lockedBefore = true
+			}
+			if lockedBefore && s.Inc > 0 && s.Kind == "prevote" {
+				cls = append(cls, "prevoted-after-restart-while-locked-before")
+				break
+			}
+		}
 		if resigned > 0 {
 			cls = append(cls, "asked-again-for-a-signed-height-round-kind-after-restart")
 		}
@@ -79,6 +124,9 @@ func TestRestartHistories(t *testing.T) {
 				sigs = sigs[:30]
 			}
 			lib.Sample(test, map[string]interface{}{"four_validators": h.Four, "crash": res.CrashLabel, "crashes": res.Crashes, "signatures_over_all_incarnations(first30)": sigs})
+		}
+		if v, bad := res.Violations["C02"]; bad {
+			t.Fatalf("C02 violated: %s\nhistory=%+v crash=%d (%s) crashes=%v\ntrace:\n%s", v, h, k, res.CrashLabel, res.Crashes, strings.Join(res.Trace, "\n"))
 		}
 		if v, bad := res.Violations["C04"]; bad {
 			t.Fatalf("C02 violated (more than one value signed for one height, round and kind across a restart): %s\nhistory=%+v crash=%d (%s) crashes=%v\ntrace:\n%s",
